@@ -14,6 +14,8 @@ from .create_family import mask_creation_date
 from .meta_family import apply_edit, gen_request
 
 HOSTILE_NAMES = ["a&b", "k=v", "100%", "a+b", "c#d", "x y", "é ü", "日本 語", "a&b=c%+#d é", "%41", "q?x", "a;b",
+                 # not NFC-stable: decomposed sequences and compatibility singletons (the name is bytes, not a word)
+                 "e\u0301 u\u0308 decomposed", "\u212bngstr\u00f6m \u2126", "\ufb01le \u2460",
                  "plain", "tr=x&ws=y", "+", "%", "&", "name.with.dots", "Ünï=©&®"]
 URLS = gen.URL_POOL + ["http://sp ace/x", "http://h/?a=1&b=2#f", "http://ü.example/é+è", "http://h/%25", "http://h/a=b=c"]
 
